@@ -545,12 +545,15 @@ func (r *Raft) Stop() {
 	// Stop accepting RPCs.
 	r.transport.Shutdown()
 
+	// Goroutines that send RPCs are not waited for: they may still inspect the
+	// node when their call returns, so the rest of the cleanup holds the lock too.
+	r.mu.Lock()
+	defer r.mu.Unlock()
+
 	if err := r.log.Close(); err != nil {
 		r.logger.Errorf("failed to close log: %v", err)
 	}
-	r.mu.Lock()
 	r.stopped = true
-	r.mu.Unlock()
 
 	// Close or discard of any snapshot files.
 	r.resetSnapshotFiles()
